@@ -250,20 +250,14 @@ Print Assumptions C11_rpm_differs_from_reference.
    If the code changes so that a tie no longer holds, this file no longer checks. *)
 Require Verif.Tie.Rpm.
 Require Verif.Tie.Loops.Rpm.
-Definition C11_tie_rpm_compare := Verif.Tie.Rpm.tie_rpm_compare.
-Print Assumptions C11_tie_rpm_compare.
-Definition C11_tie_loops_rpm_isSeparator := Verif.Tie.Loops.Rpm.tie_loops_rpm_isSeparator.
-Print Assumptions C11_tie_loops_rpm_isSeparator.
-Definition C11_tie_loops_rpm_isSeparator_rune := Verif.Tie.Loops.Rpm.tie_loops_rpm_isSeparator_rune.
-Print Assumptions C11_tie_loops_rpm_isSeparator_rune.
-Definition C11_tie_loops_rpm_compareRPMDigits := Verif.Tie.Loops.Rpm.tie_loops_rpm_compareRPMDigits.
-Print Assumptions C11_tie_loops_rpm_compareRPMDigits.
-Definition C11_tie_rpm_compareRPMNonDigits := Verif.Tie.Loops.Rpm.tie_rpm_compareRPMNonDigits.
-Print Assumptions C11_tie_rpm_compareRPMNonDigits.
-Definition C11_tie_loops_rpm_compareRPMVersionString := Verif.Tie.Loops.Rpm.tie_loops_rpm_compareRPMVersionString.
-Print Assumptions C11_tie_loops_rpm_compareRPMVersionString.
-Definition C11_tie_compareRPMVersionString_total_model := Verif.Tie.Loops.Rpm.compareRPMVersionString_total_model.
-Print Assumptions C11_tie_compareRPMVersionString_total_model.
-Definition C11_tie_rpm_compare_closed := Verif.Tie.Loops.Rpm.tie_rpm_compare_closed.
-Print Assumptions C11_tie_rpm_compare_closed.
+Definition C11_tie_rpm_compare := @Verif.Tie.Rpm.tie_rpm_compare.
+Definition C11_tie_loops_rpm_isSeparator := @Verif.Tie.Loops.Rpm.tie_loops_rpm_isSeparator.
+Definition C11_tie_loops_rpm_isSeparator_rune := @Verif.Tie.Loops.Rpm.tie_loops_rpm_isSeparator_rune.
+Definition C11_tie_loops_rpm_compareRPMDigits := @Verif.Tie.Loops.Rpm.tie_loops_rpm_compareRPMDigits.
+Definition C11_tie_rpm_compareRPMNonDigits := @Verif.Tie.Loops.Rpm.tie_rpm_compareRPMNonDigits.
+Definition C11_tie_loops_rpm_compareRPMVersionString := @Verif.Tie.Loops.Rpm.tie_loops_rpm_compareRPMVersionString.
+Definition C11_tie_compareRPMVersionString_total_model := @Verif.Tie.Loops.Rpm.compareRPMVersionString_total_model.
+Definition C11_tie_rpm_compare_closed := @Verif.Tie.Loops.Rpm.tie_rpm_compare_closed.
+Definition C11_ties_all := (C11_tie_compareRPMVersionString_total_model, (C11_tie_loops_rpm_compareRPMDigits, (C11_tie_loops_rpm_compareRPMVersionString, (C11_tie_loops_rpm_isSeparator, (C11_tie_loops_rpm_isSeparator_rune, (C11_tie_rpm_compare, (C11_tie_rpm_compareRPMNonDigits, C11_tie_rpm_compare_closed))))))).
+Print Assumptions C11_ties_all.
 (* ====== ties to the source: END ====== *)
